@@ -59,6 +59,7 @@ void simk_set_sticky(int n);
 void simk_yield(void);
 extern int simk_sched_det;            /* deterministic continuation after the schedule prefix */
 extern int simk_quiet_io;             /* writes are not scheduling points */
+extern int simk_jump_prob;
 extern int simk_log_dec;              /* log the scheduling decisions after End */
 void simk_progress(void);             /* something observable changed */
 void simk_advance(ns_t d);            /* scripted slow callback */
